@@ -109,7 +109,10 @@ def check(ctx):
     who = sorted({b.npath for b in prog.bodies(G) if b.agg_sites(r"behaviour::Event$", "Message")})
     ctx.ob("recv", "Event::Message is constructed only by handle_received_message", who == [h.npath], msg=str(who))
     lib.expect_count(ctx, "recv", "at most one delivery per received message", h, [0], rets, lib.bbs(ev), (0, 1), "Event::Message push")
-    dins = [s for s in h.call_sites(r"time_cache::DuplicateCache::insert$") if render(h.site_expr(s)[2][0]) == "self.duplicate_cache"]
+    # direct calls, or a crate-local wrapper that returns exactly the call's result (one level)
+    _d = [(s, a) for s, a in gs.wrapped_calls(h, r"time_cache::DuplicateCache::insert$", "value") if render(a[0]) == "self.duplicate_cache"]
+    dins = [s for s, _ in _d]
+    din_id = {s.key(): a[1] for s, a in _d}
     ctx.floor("recv", "duplicate_cache.insert in handle_received_message", dins, 1)
     valid = [s for s in h.call_sites(gs.BEH + r"message_is_valid$")]
     ctx.floor("recv", "message_is_valid call", valid, 1)
@@ -138,7 +141,7 @@ def check(ctx):
     # id consistency
     idsrc = set()
     for s in dins:
-        idsrc |= id_calls(h.site_expr(s)[2][1])
+        idsrc |= id_calls(gs.expand(h, din_id[s.key()]))
     ok = len(idsrc) == 1
     parts = {"duplicate_cache.insert": sorted(idsrc)}
     for s in ev:
@@ -315,9 +318,11 @@ def check(ctx):
     p = ctx.body(G, gs.BEH + r"publish$")
     psend = publish_sends(p)
     ctx.floor("pub", "send_message(Publish) in publish", psend, 1)
-    pins = [s for s in p.call_sites(r"time_cache::DuplicateCache::insert$") if render(p.site_expr(s)[2][0]) == "self.duplicate_cache"]
+    _p = [(s, a) for s, a in gs.wrapped_calls(p, r"time_cache::DuplicateCache::insert$", "value") if render(a[0]) == "self.duplicate_cache"]
+    pins = [s for s, _ in _p]
+    pin_id = {s.key(): a[1] for s, a in _p}
     ctx.floor("pub", "duplicate_cache.insert in publish", pins, 1)
-    pcon = [s for s in p.call_sites(r"time_cache::DuplicateCache::contains$") if render(p.site_expr(s)[2][0]) == "self.duplicate_cache"]
+    pcon = [s for s, a in gs.wrapped_calls(p, r"time_cache::DuplicateCache::contains$", "value") if render(a[0]) == "self.duplicate_cache"]
     ctx.floor("pub", "duplicate_cache.contains in publish", pcon, 1)
     con_true, con_false = set(), set()
     for s in pcon:
@@ -331,8 +336,7 @@ def check(ctx):
            "from duplicate_cache.contains(id) == true no send_message / insert is reachable; PublishError::Duplicate only there")
     mid_l = None
     for s in pins:
-        a = gs.expand(p, p.site_expr(s)[2][1])
-        ls = [x for x in mir.walk(p.site_expr(s)[2][1]) if x[0] == "local"]
+        a = gs.expand(p, pin_id[s.key()])
         cid = id_calls(a)
         ctx.ob("pub", "the id stored is the published message's id", len(cid) == 1, s.loc(), render(a)[:140])
         mid_l = cid
